@@ -38,7 +38,7 @@ Lemma failed_call_noop progs fuel cx kind target value s o l s' :
   wf s -> do_call (run progs fuel) cx kind target value s = (o, l, s') -> is_fail o = true -> untouched s s'.
 Proof.
   intros W H F. apply noop_untouched.
-  destruct (do_call_ok (run progs fuel) (run_ok progs fuel) _ _ _ _ _ _ _ _ W H) as (_ & N & _). auto.
+  destruct (do_call_ok progs (run progs fuel) (run_ok progs fuel) _ _ _ _ _ _ _ _ W H) as (_ & N & _). auto.
 Qed.
 
 Lemma failed_create_noop progs fuel cx value init s o l s' :
@@ -52,12 +52,23 @@ Proof.
 Qed.
 
 Lemma static_call_pure progs fuel cx target value s o l s' :
-  wf s -> do_call (run progs fuel) cx KStatic target value s = (o, l, s') -> same s s'.
-Proof. intros W H. eapply static_call_same; eauto. apply run_ok. Qed.
+  wf s -> custom_free progs -> pc_exist (dat s) ->
+  do_call (run progs fuel) cx KStatic target value s = (o, l, s') -> same s s'.
+Proof. intros W CF PE H. eapply static_call_same; eauto. apply run_ok. Qed.
 
 Lemma static_frame_pure progs fuel cx c s o l s' :
-  wf s -> static cx = true -> run progs fuel cx c s = (o, l, s') -> same s s'.
-Proof. intros W St H. destruct (run_ok progs fuel _ _ _ _ _ _ W H) as [_ S]. auto. Qed.
+  wf s -> custom_free progs -> pc_exist (dat s) -> static cx = true ->
+  run progs fuel cx c s = (o, l, s') -> same s s'.
+Proof. intros W CF PE St H. destruct (run_ok progs fuel _ _ _ _ _ _ W H) as [_ S]. apply S; auto. Qed.
+
+Lemma failed_authcall_noop progs fuel cx authority target value s o l s' :
+  wf s -> do_authcall (run progs fuel) cx authority target value s = (o, l, s') -> is_fail o = true ->
+  untouched s s' \/ untouched (authcall_pre authority s) s'.
+Proof.
+  intros W H F.
+  destruct (do_authcall_ok progs (run progs fuel) (run_ok progs fuel) _ _ _ _ _ _ _ _ W H) as (_ & N).
+  destruct (N F); [left | right]; apply noop_untouched; auto.
+Qed.
 
 Lemma wf_prepare th ti s orc : wf s -> wf (with_oracle (prepare th ti s) orc).
 Proof. auto. Qed.
@@ -68,11 +79,11 @@ Lemma exec_top_ok progs fuel t s o l s' :
                                      | TCall _ _ => untouched s s'
                                      | TCreate _ _ => untouched s s' \/
                                          exists address orc, oracle s = address :: orc /\
-                                           untouched (create_pre (mkCtx (t_origin t) false 0) address orc s) s'
+                                           untouched (create_pre (mkCtx (t_origin t) false 0 (t_origin t)) address orc s) s'
                                      end).
 Proof.
   intros W H. unfold exec_top in H. destruct (t_kind t).
-  - destruct (do_call_ok (run progs fuel) (run_ok progs fuel) _ _ _ _ _ _ _ _ W H) as (G & N & _).
+  - destruct (do_call_ok progs (run progs fuel) (run_ok progs fuel) _ _ _ _ _ _ _ _ W H) as (G & N & _).
     split; auto. intros F. apply noop_untouched; auto.
   - destruct (do_create_ok progs (run progs fuel) (run_ok progs fuel) _ _ _ _ _ _ _ W H) as (G & _).
     split; auto. intros F. eapply failed_create_noop; eauto.
@@ -111,9 +122,12 @@ Proof. cbn. splits; auto. Qed.
 Definition d0 : data :=
   mkData (fun a => if a =? 1 then Some (mkAcct 5 0 false)
                    else if a =? 11 then Some (mkAcct 1 1 false)
-                   else if a =? 12 then Some (mkAcct 1 2 false) else None)
-         (fun a k => if (a =? 12) && (k =? 1) then 9 else 0)
-         (fun a => if a =? 1 then 1000 else if a =? 11 then 100 else 0)
+                   else if a =? 12 then Some (mkAcct 1 2 false)
+                   else if a =? 900 then Some (mkAcct 0 0 false) else None)
+         (fun a k => if (a =? 12) && (k =? 1) then 9
+                     else if (a =? 900) && (k =? 24) then 800        (* contract 12 is a validator's account: stake 800 *)
+                     else if (a =? 900) && (k =? 25) then 1 else 0)
+         (fun a => if a =? 1 then 1000 else if a =? 11 then 100 else if a =? 12 then 7 * unit18 else 0)
          (fun _ _ => 0) (fun _ => false) 0 (fun _ => []) 0.
 Definition s0 : state := mkState d0 [] [] 0 0 0 [].
 
@@ -122,7 +136,8 @@ Definition progs0 : list prog :=
   [ mkProg [ASstore 1 4; ACall KCall 12 7; ALog 3] EStop;
     mkProg [ASstore 1 2; ATstore 1 5; ALog 8; ACreate 2 3] ERevert;
     mkProg [ASstore 2 2] EStop ].
-Definition tx0 : tx := mkTx 1 0 1 (TCall 11 0) [100].
+(* oracle: no out-of-gas for the frames of 11 and 12, the created address, no out-of-gas for the creation code *)
+Definition tx0 : tx := mkTx 1 0 1 (TCall 11 0) [0; 0; 100; 0].
 
 Lemma wf_s0 : wf s0.
 Proof. constructor. Qed.
@@ -148,6 +163,50 @@ Proof. vm_compute. splits; reflexivity. Qed.
 Lemma returned_logs_drop :
   let '(o, l, s1) := exec_tx progsC 5 (mkTx 1 0 1 (TCall 11 0) []) s0 in
   o = OOk /\ l = [] /\ length (logs (dat s1) 1) = 1%nat.
+Proof. vm_compute. splits; reflexivity. Qed.
+
+(* a creation whose code deposit cannot be paid (oracle entry 1000 for the creation frame) FAILS - CREATE pushes 0 -
+   and is not reverted: the new account (nonce 1), the constructor's storage write and the endowment stay *)
+Definition progsD : list prog := [ mkProg [ACreate 3 2] EStop; mkProg [ASstore 1 6] (EReturn 3); mkProg [] EStop ].
+
+Lemma codestore_not_reverted :
+  let '(o, l, s1) := do_create progsD (run progsD 5) (mkCtx 11 false 1 1) 3 2 (with_oracle s0 [100; 1000]) in
+  o = OCodeStore /\ exists_of (dat s1) 100 = true /\ nonce_of (dat s1) 100 = 1 /\ state_of (dat s1) 100 1 = 6 /\
+  bal (dat s1) 100 = 3 /\ code_of (dat s1) 100 = 0.
+Proof. vm_compute. splits; reflexivity. Qed.
+
+(* the custom opcodes run in a static frame: STATICCALL into contract 12 (a validator's account) executing STAKE 2 *)
+Definition progsS : list prog := [ mkProg [ACall KStatic 12 0] EStop; mkProg [AStake 2] EStop ].
+
+Lemma static_stake_modifies :
+  let '(o, l, s1) := exec_tx progsS 5 (mkTx 1 0 1 (TCall 11 0) []) s0 in
+  o = OOk /\ reg_stake (dat s1) 12 = 802 /\ bal (dat s1) 12 = 5 * unit18.
+Proof. vm_compute. splits; reflexivity. Qed.
+
+(* ... and AUTH + AUTHCALL(value 9) in a static frame: authority 50's nonce bumped, 9 moved from the origin to 13 *)
+Definition progsA : list prog := [ mkProg [ACall KStatic 12 0] EStop; mkProg [AAuth 12 50; AAuthCall 0 13 9] EStop ].
+
+Lemma static_authcall_modifies :
+  let '(o, l, s1) := exec_tx progsA 5 (mkTx 1 0 1 (TCall 11 0) []) s0 in
+  o = OOk /\ nonce_of (dat s1) 50 = 1 /\ bal (dat s1) 1 = 991 /\ bal (dat s1) 13 = 9.
+Proof. vm_compute. splits; reflexivity. Qed.
+
+(* a CALL to an absent precompile inside a static frame creates its account *)
+Definition progsP : list prog := [ mkProg [ACall KStatic 12 0] EStop; mkProg [ACall KCall 21 0] EStop ].
+
+Lemma static_precompile_touch :
+  let '(o, l, s1) := exec_tx progsP 5 (mkTx 1 0 1 (TCall 11 0) []) s0 in
+  o = OOk /\ exists_of d0 21 = false /\ exists_of (dat s1) 21 = true.
+Proof. vm_compute. splits; reflexivity. Qed.
+
+(* a frame that executed STAKE / UNSTAKE and then fails: registry, escrow and balance are back (instance of the
+   failed-frame theorem; the primitives of the custom opcodes are journalled) *)
+Definition progsU : list prog := [ mkProg [ACall KCall 12 0] EStop; mkProg [AStake 2; AUnstake 500] ERevert ].
+
+Lemma reverted_stake_undone :
+  let '(o, l, s1) := exec_tx progsU 5 (mkTx 1 0 1 (TCall 11 0) []) s0 in
+  o = OOk /\ reg_stake (dat s1) 12 = 800 /\ reg_status (dat s1) 12 = 1 /\ bal (dat s1) 12 = 7 * unit18 /\
+  state_of (dat s1) 901 1001 = 0 /\ exists_of (dat s1) 901 = false.
 Proof. vm_compute. splits; reflexivity. Qed.
 
 (* ---------- the opcode table of today's sources (Table.v, generated) ---------- *)
